@@ -7,7 +7,7 @@ from . import common, prims
 
 PROPERTY = "C20"
 LEVEL = "other"
-CONFIGS_QUICK = ["std", "core"]
+CONFIGS_QUICK = ["std", "alloc"]
 CONFIGS_THOROUGH = ["std", "alloc", "core"]
 EXPLANATION = (
     "Path and coverage rules on the MIR of every scan-loop poll body (join, try_join, race, race_ok, merge, zip, groups; all "
